@@ -220,7 +220,8 @@ Proof. vm_compute. reflexivity. Qed.
 (* ========================================================================
    Text layer (src/peripheral/broker/etrade.rs): Model/EtradeText.v,
    Spec/EtradeLayout.v; proofs in Proofs/EtradeTextRT.v, EtradeTextProps.v.   *)
-From ACB Require Import Model.QText Model.EtradeText Spec.EtradeLayout Proofs.EtradeTextRT Proofs.EtradeTextProps.
+From ACB Require Import Model.QText Model.EtradeText Spec.EtradeLayout Proofs.EtradeTextRT Proofs.EtradeTextProps
+  Proofs.EtradeTextESPP.
 
 (* The statement's data is returned exactly: for EVERY well-formed release
    confirmation (any symbol of upper-case letters and dots, any valid date, any
@@ -254,6 +255,16 @@ Proof. exact post_text_roundtrip. Qed.
 Check C19_tc_post_text_roundtrip : forall st r,
   wf_post r = true -> parse_tc_post (render_tc_post st r) = Ok (post_record r).
 Print Assumptions C19_tc_post_text_roundtrip.
+
+(* ESPP purchase confirmations: any symbol, any valid date, amounts digits.digits of at most 28
+   digits, each of the three sell-to-cover lines (shares sold, sale price, fees) present or absent
+   independently, both styles. *)
+Theorem C19_espp_text_roundtrip : forall st r,
+  wf_espp r = true -> parse_espp (render_espp st r) = Ok (espp_record r).
+Proof. exact espp_text_roundtrip. Qed.
+Check C19_espp_text_roundtrip : forall st r,
+  wf_espp r = true -> parse_espp (render_espp st r) = Ok (espp_record r).
+Print Assumptions C19_espp_text_roundtrip.
 
 (* The other three kinds: the full statements, and what is proved of them
    (instances by computation: the unit-test documents of etrade.rs rebuilt,
